@@ -290,7 +290,21 @@ def decompose_and_order(graph, component, component_name, bo_start=0):
     coordinates = list(int(new_graph[n].tags["SO"][1]) for n in traversal_scaffold_only)
 
     # make sure that the traversal is in ascending order
-    if coordinates[0] > coordinates[-1]:
+    ends = [coordinates[0], coordinates[-1]]
+    if len(coordinates) < 2:
+        # a single scaffold node cannot orient the chain: use the smallest reference offset found
+        # in the bubbles at the two ends of the chain instead
+        ref_name = new_graph[traversal_scaffold_only[0]].tags["SN"]
+        for k, element in enumerate((traversal[0], traversal[-1])):
+            if scaffold_node_types[element] == "b":
+                offsets = [
+                    int(new_graph[n].tags["SO"][1])
+                    for n in bubbles[int(element)]
+                    if new_graph[n].tags.get("SN") == ref_name
+                ]
+                if offsets:
+                    ends[k] = min(offsets)
+    if ends[0] > ends[1]:
         traversal.reverse()
         traversal_scaffold_only.reverse()
         coordinates.reverse()
